@@ -99,7 +99,7 @@ func sanitizersForAttributeValue(c context) ([]string, error) {
 			return nil, fmt.Errorf("actions must not occur after an ambiguous URL prefix in the %q attribute value context of a %q element", c.attr.name, c.element.name)
 		}
 		prefix := c.attr.value
-		if onlyAmpCharRefs(prefix) {
+		if !srcsetOtherCharRefPattern.MatchString(prefix) {
 			// Without character references that could hide a comma or white space, only the
 			// image candidate that the action continues matters.
 			prefix = srcsetCandidatePrefix(prefix)
@@ -225,15 +225,13 @@ func srcsetCandidatePrefix(value string) string {
 	return value[start:]
 }
 
-// onlyAmpCharRefs reports whether every '&' in s starts the character reference "&amp;".
-func onlyAmpCharRefs(s string) bool {
-	for i := 0; i < len(s); i++ {
-		if s[i] == '&' && !strings.HasPrefix(s[i:], "&amp;") {
-			return false
-		}
-	}
-	return true
-}
+// srcsetOtherCharRefPattern matches strings that contain a character reference which might
+// stand for a comma or for white space: a numeric reference, or a named reference that ends
+// in a semicolon and is not "&amp;". An '&' that does not start such a reference (as in
+// "?w=400&h=300") is either text or one of the legacy references without semicolon, none of
+// which stands for a comma or for white space.
+var srcsetOtherCharRefPattern = regexp.MustCompile(
+	`&(?:#|(?:[b-zA-Z0-9][a-zA-Z0-9]*|a(?:[a-ln-zA-Z0-9][a-zA-Z0-9]*)?|am(?:[a-oq-zA-Z0-9][a-zA-Z0-9]*)?|amp[a-zA-Z0-9]+);)`)
 
 // isSrcsetWhiteSpace reports whether c is ASCII whitespace.
 // See https://infra.spec.whatwg.org/#ascii-whitespace.
